@@ -10,6 +10,7 @@ import (
 	"strings"
 	"sync"
 	"syscall"
+	"unicode/utf8"
 
 	"github.com/enbility/go-avahi"
 	"github.com/enbility/ship-go/api"
@@ -83,6 +84,10 @@ type MdnsManager struct {
 func shortenString(s string, maxLen int) string {
 	if len(s) <= maxLen {
 		return s
+	}
+	// do not cut inside a multi-byte UTF-8 sequence
+	for maxLen > 0 && !utf8.RuneStart(s[maxLen]) {
+		maxLen--
 	}
 	return s[:maxLen]
 }
